@@ -194,6 +194,12 @@ func simC13v4(c *sim.Ctx) {
 				}
 				cuts = append(cuts, 8*(1+c.Draw(n/8)))
 			}
+			if n > 8 && c.Chance(250) {
+				// the last fragment is as short as a fragment can be: cut at the
+				// last 8-byte boundary
+				cuts = append(cuts, (n-1)&^7)
+				c.Fault("short_final_fragment")
+			}
 		}
 		sort.Ints(cuts)
 		prev := 0
